@@ -50,7 +50,7 @@ func genFamily(rt *rapid.T, fam int, sp GraphSpec) (n int, es []iedge) {
 	switch fam {
 	case FamMulti:
 		n = rapid.IntRange(1, maxN).Draw(rt, "n")
-		m := rapid.IntRange(1, maxM).Draw(rt, "m")
+		m := capDensity(n, rapid.IntRange(1, maxM).Draw(rt, "m"))
 		for i := 0; i < m; i++ {
 			// uniform endpoints would over-represent self-loops on small n: a self-loop is a separate 1-in-8 choice
 			a := pick(rt, "a", n)
@@ -66,7 +66,7 @@ func genFamily(rt *rapid.T, fam int, sp GraphSpec) (n int, es []iedge) {
 		}
 	case FamSimple:
 		n = rapid.IntRange(2, maxN).Draw(rt, "n")
-		m := rapid.IntRange(1, maxM).Draw(rt, "m")
+		m := capDensity(n, rapid.IntRange(1, maxM).Draw(rt, "m"))
 		for i := 0; i < m; i++ {
 			a := pick(rt, "a", n)
 			b := (a + 1 + pick(rt, "b", n-1)) % n
@@ -75,7 +75,7 @@ func genFamily(rt *rapid.T, fam int, sp GraphSpec) (n int, es []iedge) {
 		es = dedupe(es)
 	case FamDag:
 		n = rapid.IntRange(2, maxN).Draw(rt, "n")
-		m := rapid.IntRange(1, maxM).Draw(rt, "m")
+		m := capDensity(n, rapid.IntRange(1, maxM).Draw(rt, "m"))
 		// hidden topological order: a drawn permutation, so that the acyclic order is not the ID order
 		perm := rapid.Permutation(iota_(n)).Draw(rt, "topo")
 		for i := 0; i < m; i++ {
@@ -99,7 +99,7 @@ func genFamily(rt *rapid.T, fam int, sp GraphSpec) (n int, es []iedge) {
 				es = append(es, iedge{p, i})
 			}
 		}
-		extra := rapid.IntRange(0, max(0, maxM-(n-1))).Draw(rt, "extra")
+		extra := rapid.IntRange(0, max(0, capDensity(n, maxM)-(n-1))).Draw(rt, "extra")
 		for i := 0; i < extra; i++ {
 			a := pick(rt, "a", n)
 			b := (a + 1 + pick(rt, "b", n-1)) % n
@@ -152,6 +152,15 @@ func genFamily(rt *rapid.T, fam int, sp GraphSpec) (n int, es []iedge) {
 		es = []iedge{{0, 1}}
 	}
 	return n, es
+}
+
+// capDensity bounds the number of edges of graphs with more than 10 nodes to 3 per node: very dense multigraphs with
+// dozens of nodes cost seconds per layout (122 edges on 12 nodes: 6 s) without adding structure the small dense cases lack.
+func capDensity(n, m int) int {
+	if n > 10 || m > 40 {
+		return min(m, 3*n+4)
+	}
+	return m
 }
 
 func genMotif(rt *rapid.T, sp GraphSpec) (int, []iedge) {
